@@ -14,9 +14,10 @@
 (*   all agree with the first one to 1e-8 relative (schoolbook             *)
 (*   multiplication on limbs: this is the generator's recurrence           *)
 (*   f(x_i) = v/x_{i-1} + f(x_{i-1}) with f eliminated - no exp needed).   *)
-(* Not decided: F[i] = f(X[i]) (needs exp), v = r f(r) + tail (needs erfc).*)
+(* Values: every X[i] and F[i] agrees to 2^-30 with ZigRefTable, the       *)
+(* ziggurat of the density computed independently (mpmath) from R alone.   *)
 (***************************************************************************)
-EXTENDS Ord, TLC, Json, IOUtils
+EXTENDS Ord, TLC, Json, IOUtils, ZigRefTable
 
 Tab == ndJsonDeserialize(IOEnv.TABLE)      \* one record per (table, i): [tab, i, xo, fo, xq, fq], plus R records
 
@@ -66,7 +67,11 @@ EndPoints(tab) == /\ LEQ(Entry(tab, 256).xo, FZero)
 EqualAreas(tab) == LET ref == Area(tab, 1) IN
                    \A i \in 0..255 : Cmp(Mul(AbsDiff(Area(tab, i), ref), TenTo8), ref) <= 0
 
-TablesOK == \A tab \in {"norm", "exp"} : Monotone(tab) /\ EndPoints(tab) /\ EqualAreas(tab)
+\* values against the independently computed ziggurat: |X - Xref| <= 2^-30 (1024 units of 2^-40), |F - Fref| <= 2^-30 (32768 units of 2^-45)
+RefOK(tab, i) == /\ Cmp(AbsDiff(Entry(tab, i).xq, ZRef[tab][i + 1].xq), <<1024>>) <= 0
+                 /\ Cmp(AbsDiff(Entry(tab, i).fq, ZRef[tab][i + 1].fq), <<0, 2>>) <= 0
+
+TablesOK == \A tab \in {"norm", "exp"} : Monotone(tab) /\ EndPoints(tab) /\ EqualAreas(tab) /\ \A i \in 0..256 : RefOK(tab, i)
 
 \* a one-state "specification": the equations are evaluated as an invariant of the initial state,
 \* and the first violated table/index is reported
@@ -74,8 +79,9 @@ VARIABLE done
 Init == done = FALSE
 Next == done' = TRUE
 Spec == Init /\ [][Next]_done
-Report == LET bad == {<<tab, i, what>> \in {"norm", "exp"} \X (0..255) \X {"mono", "area"} :
-                        IF what = "mono" THEN ~(LLT(Entry(tab, i + 1).xo, Entry(tab, i).xo) /\ LLT(Entry(tab, i).fo, Entry(tab, i + 1).fo))
+Report == LET bad == {<<tab, i, what>> \in {"norm", "exp"} \X (0..255) \X {"mono", "area", "value"} :
+                        IF what = "value" THEN ~RefOK(tab, i) \/ (i = 255 /\ ~RefOK(tab, 256))
+                        ELSE IF what = "mono" THEN ~(LLT(Entry(tab, i + 1).xo, Entry(tab, i).xo) /\ LLT(Entry(tab, i).fo, Entry(tab, i + 1).fo))
                         ELSE Cmp(Mul(AbsDiff(Area(tab, i), Area(tab, 1)), TenTo8), Area(tab, 1)) > 0}
           IN  IF Layout /\ bad = {} /\ (\A tab \in {"norm", "exp"} : EndPoints(tab)) THEN TRUE
               ELSE PrintT(<<"TABLE-BAD", ToJson([bad |-> bad, endpoints |-> [tab \in {"norm", "exp"} |-> EndPoints(tab)]])>>) /\ FALSE
